@@ -86,7 +86,7 @@ pub fn initial_docs(cfg: &GenCfg, rng: &mut Rng) -> Vec<Doc> {
         let path = doc_path(&name);
         let uri = uri_of(&path);
         let _ = rng;
-        docs.push(Doc { uri, path, lang, open: false, text: String::new(), version: 0, disk: None, history: vec![], known_to_server: false });
+        docs.push(Doc { uri, path, lang, open: false, text: String::new(), version: 0, disk: None, history: vec![], known_to_server: false, last_change_step: 0 });
     }
     docs
 }
@@ -394,6 +394,10 @@ fn collect_commands(c: &Client, name: &str) -> Vec<Vec<Value>> {
         if !c.doc(uri).map(|d| d.open).unwrap_or(false) {
             continue;
         }
+        // a lint payload is only meaningful for the text it was computed on
+        if name == "HarperIgnoreLint" && c.doc(uri).map(|d| d.last_change_step >= r.req_step).unwrap_or(true) {
+            continue;
+        }
         if let Some(arr) = r.result.as_array() {
             for a in arr {
                 if a["command"].as_str() == Some(name) {
@@ -443,6 +447,11 @@ fn pick_position(c: &Client, d: &Doc, rng: &mut Rng) -> (u32, u32) {
 pub fn gen_word(rng: &mut Rng, wide: bool) -> String {
     if !wide || rng.chance(2, 3) {
         return rng.pick(corpus::WORDS).to_string();
+    }
+    if rng.chance(1, 5) {
+        // reduplication: a short syllable said twice or three times
+        let syl: String = (0..rng.range(1, 3)).map(|_| (b'a' + rng.below(26) as u8) as char).collect();
+        return syl.repeat(rng.range(2, 3));
     }
     let n = rng.range(1, 12);
     let mut s = String::new();
